@@ -148,10 +148,15 @@ def self_builder(group_key):
     return build
 
 
+_FACTS = {}
+
+
 def prove_type(job):
     cfgname, fdir, ty_s, tyname, group_keys = job
-    F = Facts(cfgname, fdir)
-    m = F.mono
+    if fdir not in _FACTS:
+        _FACTS.clear()
+        _FACTS[fdir] = Facts(cfgname, fdir)
+    m = _FACTS[fdir].mono
     out = []
     with equiv.TermMode():
         T.INVERSES.clear()
@@ -195,13 +200,18 @@ def prove_type(job):
     return (cfgname, tyname, out)
 
 
-WBLOCK_QUICK = list(range(32, 50)) + [63, 64, 65, 100]
+BASE_CONFIGS = ('x64', 'a64', 'x86')
+CFG_CRATES = ('aes', 'kuznyechik', 'serpent')
+WBLOCK_QUICK = list(range(32, 42)) + [47, 48, 49, 63, 64, 65]
 WBLOCK_THOROUGH = list(range(32, 130)) + [255, 256, 257]
 
 
 def prove_wblock(job):
     cfgname, fdir, n = job
-    F = Facts(cfgname, fdir)
+    if fdir not in _FACTS:
+        _FACTS.clear()
+        _FACTS[fdir] = Facts(cfgname, fdir)
+    F = _FACTS[fdir]
     out = []
     with equiv.TermMode():
         for first in ('enc', 'dec'):
@@ -224,6 +234,8 @@ def run(chk, facts_by_config):
         chk.configs.append(cfgname)
         for t in F.roots_info['types']:
             tyname = pretty(t['ty'])
+            if cfgname not in BASE_CONFIGS and t['crate'] not in CFG_CRATES:
+                continue       # only these crates have cfg-dependent code; the others are covered in the base configuration
             r = res.get((cfgname, t['pub_path']), {})
             gks = r.get('group_keys') or [[]]
             gks = [g for g in gks if not (g and g[0] == 'conv')] or [[]]
